@@ -91,7 +91,7 @@ Record bres := mkBRes {
   r_amb : Z;
   r_feats : list string;
   r_blind : bool;
-  r_steal : bool    (* an Add carried the tid of another job (D40) *)
+  r_steal : bool    (* an Add carried the tid of another job (ignored since the repair of D40) *)
 }.
 
 Definition near (at_ t0 t1 : Z) : bool := (t0 - bmargin <=? at_) && (at_ <=? t1 + bmargin).
@@ -158,8 +158,9 @@ Definition replay_op (k : Z) (r : bres) (o : json) : bres :=
             if existsb (fun f => negb (fd_once f)) fs then "fire-recurring" else "";
             if existsb (fun kv => b_evict (snd kv)) s0 then "evict" else "";
             if (10 <=? length s0)%nat then "work-limit-10" else "";
-            if existsb (fun kv => key_due (fst kv) t0 && (t0 <? fst (fst kv))) inpart then "due-before-instant" else "";
-            if existsb (fun kv => negb (key_due (fst kv) t0) && (fst (fst kv) <=? t0)) inpart then "not-due-after-instant" else ""]
+            if existsb (fun kv => key_due (fst kv) t0 && (fst (fst kv) mod Crolt.sec =? 0)
+                                  && (fst (fst kv) / Crolt.sec =? t0 / Crolt.sec)) inpart
+            then "whole-second-key-due-in-its-second" else ""]
            amb false
   else if String.eqb op "reopen" then
     if negb (String.eqb (jfS "err" res) "") then failv "reopen: error" JNull
@@ -226,6 +227,25 @@ Definition first_fail (l : list (string * string * bool)) : option (string * str
   | [] => None
   end.
 
+(** The entry with the smallest instant. *)
+Fixpoint earliest (l : list json) : option json :=
+  match l with
+  | [] => None
+  | e :: r => match earliest r with
+              | Some e' => if jfZ "key_at" e' <? jfZ "key_at" e then Some e' else Some e
+              | None => Some e
+              end
+  end.
+
+Fixpoint sorted_by_at (l : list json) : bool :=
+  match l with
+  | [] => true
+  | e :: r => match r with
+              | [] => true
+              | e' :: _ => (jfZ "key_at" e <=? jfZ "key_at" e') && sorted_by_at r
+              end
+  end.
+
 (** Judging one work call: every entry of the partition's time bucket before
     the call either is unchanged, or fired (new TId), or was evicted. *)
 Definition judge_work (parts ttl : Z) (o prev scan : json) : list (string * string * bool) :=
@@ -258,7 +278,13 @@ Definition judge_work (parts ttl : Z) (o prev scan : json) : list (string * stri
       ("work_at_most_10", "more than 10 entries handled in one work call", (length changed <=? 10)%nat);
       ("work_progress", "work handled nothing although an entry is due for more than a second",
        if existsb (fun e => jfZ "key_at" e + Crolt.sec <=? t0) before
-       then negb (length changed =? 0)%nat else true)]%list.
+       then negb (length changed =? 0)%nat else true);
+      ("work_serves_earliest_due", "the entry with the earliest instant was due and was neither fired nor evicted",
+       match earliest before with
+       | Some e => if jfZ "key_at" e + bmargin <=? t0
+                   then existsb (fun x => String.eqb (jfS "key" x) (jfS "key" e)) changed else true
+       | None => true
+       end)]%list.
 
 Fixpoint judge_ops (parts ttl : Z) (prev : json) (ops : list json) : list (string * string * bool) :=
   match ops with
@@ -272,6 +298,8 @@ Fixpoint judge_ops (parts ttl : Z) (prev : json) (ops : list json) : list (strin
       let ts := all_entries scan "time" ps in
       let has_aid aid := existsb (fun e => String.eqb (obs_aid (snd e)) aid) (js ++ ts)%list in
       (("buckets_consistent", String.append "jobs and time buckets disagree after " op, consistent_scan parts scan)
+       :: ("time_keys_in_time_order", "the keys of a time bucket are not in the order of their instants",
+           forallb (fun p => sorted_by_at (bucket scan "time" p)) ps)
        :: (if String.eqb op "add" then
              let aid := obs_aid o in
              if String.eqb (jfS "err" res) "" then
@@ -316,10 +344,10 @@ Definition check_crolt (c : json) : json :=
   let ops := jfL "ops" c in
   let r := replay 0 (mkBRes (crolt_init parts) None 0 [] false false) ops in
   let j := first_fail (judge_ops parts ttl empty_scan ops) in
-  let kf := match j with
-            | Some (op, _) => if r_steal r then ["D40"] else []
-            | None => []
-            end in
+  (* D40 and D39 are repaired: their clauses (buckets_consistent after an Add
+     with a foreign TId; time_keys_in_time_order, work_serves_earliest_due,
+     work_fires_due_only) are plain spec failures *)
+  let kf : list string := [] in
   let feats := filter (fun f => negb (String.eqb f "")) (dedup_str (r_feats r)) in
   JObj [("ok", JBool (match r_fail r with None => true | Some _ => false end));
         ("at", match r_fail r with Some (k, _, _) => JNum k | None => JNull end);
